@@ -10,6 +10,7 @@
 // library are mapped to codes by exact equality; anything else becomes -999999.
 //
 //   drv_params --out F --mode alg   --k K --n N     interval algebra: exhaustive on a K-point grid + N random pools
+//   drv_params --out F --mode cross --k K           C01 exhaustive: intervals x values x requests on a K-point grid
 //   drv_params --out F --mode param --n N           C01 histories on single parameters and list/owner routes
 //   drv_params --out F --mode prec  --n N           C01 histories with parameter precision on integer pools
 //   drv_params --out F --mode list  --n N           C02 histories on lists and owning objects
@@ -137,28 +138,40 @@ struct World
       }
       return;
     }
-    std::set<long> micro; // values are multiples of 1e-6 so that each has an exact short decimal spelling
+    // values are multiples of 1e-9 (|x| <= 1e3) so that each has an exact short decimal spelling; most are multiples of
+    // 1e-6, now and then two points are only 1e-9 apart (the narrowest interval of the quantifier; still >> 1e-12)
+    std::set<long long> nano;
     if (rng.chance(7, 10))
     {
-      micro.insert(0);
-      if (rng.coin()) micro.insert(1000000);
+      nano.insert(0);
+      if (rng.coin()) nano.insert(1000000000LL);
     }
-    while (static_cast<long>(micro.size()) < k)
+    while (static_cast<long>(nano.size()) < k)
     {
-      long m;
-      switch (rng.below(4))
+      long long m;
+      switch (rng.below(5))
       {
-      case 0: m = rng.range(-1000000000L, 1000000000L); break; // |x| <= 1e3
-      case 1: m = rng.range(-5000000, 5000000); break;
-      case 2: m = rng.range(-20, 20) * 250000; break;
-      default: m = rng.range(-3000, 3000); break;               // close to zero, gaps >= 1e-6
+      case 0: m = static_cast<long long>(rng.range(-1000000000L, 1000000000L)) * 1000; break; // |x| <= 1e3
+      case 1: m = static_cast<long long>(rng.range(-5000000, 5000000)) * 1000; break;
+      case 2: m = static_cast<long long>(rng.range(-20, 20)) * 250000000LL; break;
+      case 3: m = static_cast<long long>(rng.range(-3000, 3000)) * 1000; break;              // close to zero
+      default:
+        if (nano.empty()) continue;
+        {
+          auto it = nano.begin();
+          std::advance(it, static_cast<long>(rng.below(nano.size())));
+          m = *it + (rng.coin() ? 1 : -1);                                                    // 1e-9 next to a point
+          if (m > 1000000000000LL || m < -1000000000000LL) continue;
+        }
+        break;
       }
-      micro.insert(m);
+      nano.insert(m);
     }
-    for (long m : micro)
+    for (long long m : nano)
     {
       char b[64];
-      snprintf(b, sizeof b, "%s%ld.%06ld", m < 0 ? "-" : "", std::labs(m) / 1000000, std::labs(m) % 1000000);
+      long long a = m < 0 ? -m : m;
+      snprintf(b, sizeof b, "%s%lld.%09lld", m < 0 ? "-" : "", a / 1000000000LL, a % 1000000000LL);
       cd.text.push_back(b);
       cd.pool.push_back(strtod(b, nullptr));
     }
@@ -1183,6 +1196,33 @@ static void modeBulk(World& w, long nmax)
         }
 }
 
+// ---------------------------------------------------------------- mode cross (exhaustive small scope)
+// every interval on a K-point grid x every code as initial value, for a plain and an auto-correcting parameter; then
+// every code as a request to both setters and every interval of the grid as a new constraint: all order types of
+// {bounds, value} through the real constructor / setValue / setConstraint, raise paths included.
+static void modeCross(World& w, long K)
+{
+  std::vector<Iv> all = gridIntervals(K);
+  for (const Iv& iv : all)
+    for (long v = -2; v <= 4 * (K - 1) + 2; ++v)
+    {
+      w.reset("cross", K);
+      std::vector<double> g{0.0, 1.0, 2.5, -1.75};
+      std::vector<double> p(g.begin(), g.begin() + K);
+      std::sort(p.begin(), p.end());
+      w.cd.pool = p;
+      int a = w.doConstruct(0, v, true, iv, 0, false);
+      int b = w.doConstruct(1, v, true, iv, 0, true);
+      for (long u = w.cd.lowest(); u <= w.cd.highest(); ++u)
+      {
+        if (a) w.doSetValue(a, u);
+        if (b) w.doSetValue(b, u);
+      }
+      if (a)
+        for (const Iv& j : all) w.doSetConstraint(a, j);
+    }
+}
+
 int main(int argc, char** argv)
 {
   std::string out = argStr(argc, argv, "--out", "");
@@ -1204,6 +1244,7 @@ int main(int argc, char** argv)
   else if (mode == "prec") modeParam(w, n, true);
   else if (mode == "list") modeList(w, n);
   else if (mode == "bulk") modeBulk(w, nmax);
+  else if (mode == "cross") modeCross(w, k);
   else
   {
     fprintf(stderr, "drv_params: unknown mode\n");
